@@ -73,9 +73,18 @@ def judge(ck, module, cfg, events, wdir, tag="batch", shard=20000, timeout=1200,
     them and prints "VP|fail|<case>" for those the specification rejects.
     Returns {failed case id: [tags]}. The whole file must be consumed."""
     failed = {}
-    for si in range(0, len(events), shard):
-        part = events[si:si + shard]
-        path = os.path.join(wdir, "%s.%d.ndjson" % (tag, si // shard))
+    # shards end on case boundaries (a case may span several events)
+    parts, cur, last = [], [], object()
+    for ev in events:
+        if ev.get("case") != last and len(cur) >= shard:
+            parts.append(cur)
+            cur = []
+        last = ev.get("case")
+        cur.append(ev)
+    if cur:
+        parts.append(cur)
+    for si, part in enumerate(parts):
+        path = os.path.join(wdir, "%s.%d.ndjson" % (tag, si))
         common.write_ndjson(path, part)
         e = {"TRACE": path}
         if env:
